@@ -18,7 +18,7 @@ RULE = ("cases = generated particle lists (positions/shifts of either sign, half
         "orientation classes) driven through a history of 1..6 operations drawn from update/scale/shift/rotate/flip with random "
         "parameters and dimension-table formats; non-trivial = at least 2 particles with non-zero shifts and a history that "
         "contains an operation changing the pose; distinct by digest of (n, class, operation names+parameters, first row)")
-ASSUMPTIONS = ["orientation of a row = Rz(psi).Rx(theta).Rz(phi) (DESIGN section 3)", "tolerance 1e-9*max(1,|P|) on positions, 1e-9 on matrix entries",
+ASSUMPTIONS = ["orientation of a row = Rz(psi).Rx(theta).Rz(phi) (DESIGN section 3)", "tolerance 1e-9*max(1,|P|) on positions, 1e-9 on matrix entries (5e-7 within 1e-6 of gimbal lock: Euler-angle storage via scipy as_euler)",
                "flip_handedness is judged only when the dimension table covers every tomogram of the list",
                "z-mirror conjugate of R is M.R.M with M = diag(1,1,-1)"]
 
@@ -52,7 +52,7 @@ def pose_ok(df):
     return bool(np.all(np.isfinite(v)) and np.abs(v[:, :6]).max() < 1e9)
 
 
-def cmp_state(new, P, R, other, what):
+def cmp_state(new, P, R, other, what, rot_tol=None):
     """-> None or witness"""
     if new["P"].shape != P.shape:
         return {"what": what + ": number of particles changed", "now": list(new["P"].shape), "expected": list(P.shape)}
@@ -62,8 +62,13 @@ def cmp_state(new, P, R, other, what):
         i = int(np.argmax(dp.max(axis=1)))
         return {"what": what + ": complete position", "row": i, "now": new["P"][i], "expected": P[i], "tol": tol}
     dr = np.abs(new["R"] - R)
-    if dr.max() > 1e-9:
-        i = int(np.argmax(dr.reshape(len(R), -1).max(axis=1)))
+    # orientations are only visible as zxz Euler angles; scipy's as_euler treats |sin(theta)| < ~1e-7 as gimbal lock and then
+    # reproduces the rotation only to about twice that deviation, so next to the poles 5e-7 is what a correct implementation
+    # can deliver (measured 2e-7); everywhere else 1e-9
+    sin_theta = np.sqrt(R[:, 0, 2] ** 2 + R[:, 1, 2] ** 2)
+    tol_r = np.where(sin_theta < 1e-6, 5e-7, 1e-9) if rot_tol is None else np.full(len(R), rot_tol)
+    if (dr.reshape(len(R), -1).max(axis=1) > tol_r).any():
+        i = int(np.argmax(dr.reshape(len(R), -1).max(axis=1) / tol_r))
         return {"what": what + ": orientation", "row": i, "max_entry_error": float(dr.max()), "now": new["R"][i], "expected": R[i]}
     if not np.array_equal(new["other"], other, equal_nan=True):
         i, k = np.argwhere(~((new["other"] == other) | (np.isnan(new["other"]) & np.isnan(other))))[0]
@@ -243,10 +248,18 @@ def gen(ctx, i, cls):
                 s = np.array([0.0, 0.0, float(rng.uniform(-10, 10))])
             return {"op": "shift", "s": [float(v) for v in s], "inplace": bool(rng.random() < 0.75), "as": str(rng.choice(["list", "array", "tuple"]))}
         if kind == "rot":
-            return {"op": "rot", "Q": so3.random_rotations(rng, 1)[0].tolist() if rng.random() < 0.8 else np.array(so3.cube_rotations()[int(rng.integers(0, 24))], dtype=float).tolist()}
-        fmt = str(rng.choice(["list3", "array3", "array_n4", "frame_n4", "file_n4", "file_13"]))
+            r = rng.random()
+            if r < 0.55:
+                Q = so3.random_rotations(rng, 1)[0]
+            elif r < 0.7:
+                Q = np.array(so3.cube_rotations()[int(rng.integers(0, 24))], dtype=float)
+            else:          # refinement-sized steps: 1e-5 .. 2 degrees about a random axis (and exactly about z)
+                axis = rng.normal(size=3) if rng.random() < 0.7 else np.array([0.0, 0.0, 1.0])
+                Q = so3.axis_angle(axis, float(10.0 ** rng.uniform(-5, 0.3)) * float(rng.choice([-1, 1])))
+            return {"op": "rot", "Q": Q.tolist()}
+        fmt = str(rng.choice(["list3", "array3", "array_n4", "frame_n4", "file_n4", "file_13", "frame13"]))
         if cls == "single_dim_flip":
-            fmt = str(rng.choice(["list3", "array3", "file_13"]))
+            fmt = str(rng.choice(["list3", "array3", "file_13", "frame13"]))
         if cls == "multi_tomo_flip":
             fmt = str(rng.choice(["array_n4", "frame_n4", "file_n4"]))
         return {"op": "flip", "fmt": fmt, "single": [float(v) for v in rng.integers(50, 600, 3)]}
@@ -257,6 +270,8 @@ def gen(ctx, i, cls):
         ops = [rand_op("rot"), rand_op("rot")]
     elif cls == "flip_twice":
         f = rand_op("flip")
+        if rng.random() < 0.5:
+            f["fmt"] = str(rng.choice(["frame_n4", "frame13", "array_n4", "array3"]))
         ops = [f, dict(f)]
     elif cls == "update_only":
         ops = [rand_op("update")]
@@ -289,8 +304,20 @@ def nontrivial(case):
 
 # ---- driver -------------------------------------------------------------------------------------
 def make_dims(ctx, case, op, k):
+    """Dimension tables are created once per case and format and then REUSED by every flip of the history (what a user does
+    with a table kept in a variable): a flip must not depend on, or change, what an earlier flip did to its argument."""
+    cache = case.setdefault("_dims_cache", {})
+    key = (op["fmt"], tuple(op["single"]))
+    if key not in cache:
+        cache[key] = _make_dims(ctx, case, op, k)
+    return cache[key]
+
+
+def _make_dims(ctx, case, op, k):
     fmt = op["fmt"]
     rows = np.array(case["dim_rows"], dtype=float)
+    if fmt == "frame13":
+        return pd.DataFrame(np.array([op["single"]], dtype=float))
     if fmt == "list3":
         return list(op["single"])
     if fmt == "array3":
@@ -332,7 +359,7 @@ def apply_model(sh, case, op):
         R = R @ np.array(op["Q"])
     elif op["op"] == "flip":
         P = P.copy()
-        if op["fmt"] in ("list3", "array3", "file_13"):
+        if op["fmt"] in ("list3", "array3", "file_13", "frame13"):
             P[:, 2] = op["single"][2] + 1.0 - P[:, 2]
         else:
             zd = {r[0]: r[3] for r in case["dim_rows"]}
@@ -366,7 +393,10 @@ def run_case(ctx, case):
                 w = {"what": "after update: x,y,z not integral or |shift| > 0.5"}
         if not ctx.check("history_model", w is None, w):
             return
-        sh["tomo"] = new["tomo"]
+        # every step is judged on its own; the shadow then continues from the validated real state, so that the rounding a
+        # correct implementation incurs when it stores an orientation as Euler angles next to gimbal lock is not carried
+        # into later steps as if it were an error of those steps
+        sh = dict(sh, P=new["P"], R=new["R"], tomo=new["tomo"])
     # explicit composition pairs on fresh objects
     cls = case["cls"]
     if cls == "compose_shift":
@@ -382,7 +412,7 @@ def run_case(ctx, case):
         Q12 = np.array(case["ops"][0]["Q"]) @ np.array(case["ops"][1]["Q"])
         ok, _ = ctx.call("apply_rotation(Q1*Q2)", a.apply_rotation, Rotation.from_matrix(Q12))
         if ok:
-            w = cmp_state(state(m.df), gens.positions(a.df), gens.rotations(a.df), a.df[OTHER].to_numpy(float), "Q1 then Q2 vs Q1*Q2")
+            w = cmp_state(state(m.df), gens.positions(a.df), gens.rotations(a.df), a.df[OTHER].to_numpy(float), "Q1 then Q2 vs Q1*Q2", rot_tol=1e-6)
             ctx.check("compose", w is None, w)
     elif cls == "flip_twice":
         now = m.df[gens.COLS].to_numpy(dtype=float)
